@@ -27,23 +27,29 @@ def _has_sym_elems(a):
 
 
 def _post(res):
-    """object result -> concrete array if all elements concrete, else SymArray"""
+    """object result -> bool array if all elements are concrete bools (so that it can index any array), else a
+    SymArray.  Arrays that took part in a symbolic computation stay SymArrays even when all their elements happen
+    to be concrete: a later boolean mask with symbolic entries can then still index them."""
     if not isinstance(res, _np.ndarray):
         return res
     if res.dtype != object:
         return res.view(_np.ndarray) if isinstance(res, SymArray) else res
     res = _raw(res)
     flat = res.ravel()
-    if not any(isinstance(v, (SV, SB, SIdx)) for v in flat):
-        if len(flat) and all(isinstance(v, (bool, _np.bool_)) for v in flat):
-            return res.astype(bool)
-        try:
-            if all(v is None for v in flat) and len(flat):
-                return res
-            return res.astype(float)
-        except (TypeError, ValueError):
-            return res
+    if len(flat) and all(isinstance(v, (bool, _np.bool_)) for v in flat):
+        return res.astype(bool)
     return res.view(SymArray)
+
+
+def to_concrete(res):
+    """all-concrete SymArray -> float array (used at the boundary to code that needs native arrays)"""
+    a = _raw(res)
+    if isinstance(a, _np.ndarray) and a.dtype == object and not _has_sym_elems(a):
+        try:
+            return a.astype(float)
+        except (TypeError, ValueError):
+            return a
+    return a
 
 
 def arr1(vals):
